@@ -414,7 +414,7 @@ func TestCheck(t *testing.T) {
 	rec = mon.Open("C09")
 	defer rec.Close()
 	rec.Note("rule", "a case is one timeline against the real limiter in a synctest bubble: (lockstep) seeded Add/burst/sleep sequences with sleeps to just before, exactly at and just after the reference window end, compared signal-for-signal with the statement's automaton; (racing) bursts from 2-8 goroutines at shared virtual instants with a prompt or slow consumer, ended by Close or cancel at a seeded instant, judged by the conservation and bounded-progress invariants; (directed) the run loop parked at loop.top / input.recv / timer.recv while Add / Close / cancel are issued. Non-trivial = at least two Adds or a placed operation; distinct = distinct (config, step list).")
-	rec.Note("require", []string{"park.loop.top", "park.input.recv", "park.timer.recv", "lockstep.signals_matched", "lockstep.window_end_exact", "lockstep.cap_fired", "racing.adds", "longchain.adds_in_one_window", "racing.shutdown_with_undelivered_signals", "lockstep.burst_owed_signal", "shutdown.close", "shutdown.cancel", "shutdown.overlapping_close_calls_checked", "directed.close_while_parked", "fakeclock.adds_racing_window_end_signalled", "lifecycle.run_on_closed_limiter", "lifecycle.close_called_again", "lifecycle.close_again_after_run_on_closed", "feedback.add_right_after_a_late_receive", "pingpong.chains_completed_in_one_instant", "pingpong.opening_adds_while_loop_busy"})
+	rec.Note("require", []string{"park.loop.top", "park.input.recv", "park.timer.recv", "lockstep.signals_matched", "lockstep.window_end_exact", "lockstep.cap_fired", "racing.adds", "longchain.adds_in_one_window", "racing.shutdown_with_undelivered_signals", "lockstep.burst_owed_signal", "shutdown.close", "shutdown.cancel", "shutdown.overlapping_close_calls_checked", "directed.close_while_parked", "fakeclock.adds_racing_window_end_signalled", "lifecycle.run_on_closed_limiter", "lifecycle.close_called_again", "lifecycle.close_again_after_run_on_closed", "feedback.add_right_after_a_late_receive", "pingpong.chains_completed_in_one_instant", "pingpong.opening_adds_while_loop_busy", "lockstep.second_run_call_returned"})
 	ps := plans()
 	rec.Planned(len(ps))
 	for idx, pl := range ps {
@@ -516,6 +516,23 @@ func runLockstep(t *testing.T, idx int, rng *mon.RNG, longChain bool) {
 					}
 					rec.Count("longchain.adds_in_one_window", 1)
 					continue
+				}
+			}
+			if !longChain && rng.Chance(1, 8) {
+				// somebody calls Run again on the running limiter (a second owner, a restart path that does not
+				// know better): whatever it answers, the limiter that is running keeps doing its job
+				w.step("second Run call")
+				d := make(chan error, 1)
+				go func() { d <- w.rl.Run(context.Background(), make(chan struct{})) }()
+				synctest.Wait()
+				select {
+				case <-d:
+					rec.Count("lockstep.second_run_call_returned", 1)
+				default:
+					rec.Count("lockstep.observed.second_run_call_blocks", 1)
+				}
+				if !compare() {
+					break
 				}
 			}
 			switch {
